@@ -61,7 +61,7 @@ def _jac_verdict(prop, spec_name, ch, case, which, res, mode):
         counts["wrong-shape"] += 1
         out["v"] = W.mk_violation(prop, spec_name, ch, case, which, mode, "wrong-shape", prob, "%d x %d real Jacobian" % (m, n))
         return out
-    if isinstance(num, tuple):
+    if isinstance(num, tuple) or not getattr(case, "value_oracle", True):
         counts["undecided"] += 1
         out["outcome"] = "undecided"
         return out
